@@ -96,6 +96,21 @@ def judge(ctx, curve, dom, d, k, digest, at, fmt, cls, key, via_hash=None):
                 problems.append("returned key: library verify raised %s" % type(ex).__name__)
         if Q not in pts:
             problems.append("signer's key %r not among %r" % (Q, pts))
+    # low-level entry point (ecdsa.ecdsa.Signature.recover_public_keys), the same Signature object asked for two different hashes
+    if not problems and not outcome and ctx.rng.random() < 0.25:
+        from ecdsa.ecdsa import Signature
+        ctx.case("recover.lowlevel_reuse", key=curve.name)
+        try:
+            so = Signature(r, s)
+            e_other = (e + 1 + ctx.rng.randrange(n - 1)) % n
+            first = so.recover_public_keys(e_other, curve.generator)
+            second = so.recover_public_keys(e, curve.generator)
+            pts2 = sorted((int(pk.point.x()), int(pk.point.y())) for pk in second)
+            want2 = sorted(ecdsa_ref.recover(dom, e, r, s))
+            if pts2 != want2:
+                problems.append("Signature.recover_public_keys(e) after a call with another hash on the same object returns %r, reference candidates %r" % (pts2, want2))
+        except Exception as ex:
+            problems.append("low-level recover_public_keys raised %s: %s" % (type(ex).__name__, ex))
     if problems:
         mech = "recovery_wrong"
         if outcome and ident:
